@@ -433,6 +433,12 @@ def run(ctx):
         rn.close()
         model = ctx.driver.ask(ops)
         kit.compare(res, ops, impl, model)
+    # a found block is broadcast: what is queued for a peer must reach the peer's socket, whatever else is queued
+    chain.patch(horizon=-1)
+    keys_ = chain.Keys(rng, 4)
+    tree_ = chain.Tree(rng, keys_)
+    tree_.grow(5, fork_prob=0.2)
+    node.write_path_probe(res, rng, node.probe_messages(tree_, keys_, rng), "broadcast of a found block")
     chain.unpatch()
     res.rule = ("the real MinerWatcher.handle_request_scrypt_input_message / handle_scrypt_output_message on a real node "
                 "(ChainManager, real BlockStore, greeted and ungreeted peers) over random forked chain states (production "
